@@ -55,6 +55,16 @@ safe("antismash/detection/hmm_detection/__init__.py", "get_ruleset", "tuple(name
      "cache key only: a different order misses the cache and rebuilds an equal ruleset")
 safe("antismash/detection/hmm_detection/__init__.py", "get_ruleset", "tuple(category_subset)",
      "cache key only: a different order misses the cache and rebuilds an equal ruleset")
+safe(SEC + "features/cds_feature.py", "_sanitise_id_value", "for char in set(name).intersection(illegal_chars)",
+     "replacements of distinct single characters by the same filler commute")
+safe(SEC + "features/region/structures.py", "Region.get_unique_protoclusters", "sorted(clusters, key=reduction)",
+     "the key ends with the product, and two protoclusters of one product with identical coordinates do not exist "
+     "(same-product protoclusters whose cores are within the cutoff are merged), so the key is total on the set")
+safe("antismash/detection/hmm_detection/__init__.py", "check_options",
+     "issues.append(f'Unknown rules in requested rule subset: {unknown}')", "text of an option-validation error message only")
+safe("antismash/detection/hmm_detection/__init__.py", "check_options",
+     "issues.append(f'Unknown rules in requested rule category subset: {unknown}')",
+     "text of an option-validation error message only")
 safe(SEC + "features/cds_feature.py", "_sanitise_id_value", "for char in illegal_chars",
      "replacements of distinct single characters by the same filler commute")
 safe("antismash/common/hmmer.py", "remove_overlapping", "sorted(group, key=ranking_stats)",
